@@ -80,7 +80,7 @@ def c_literal_value(text):
 
 LITERAL_FORMS = {
     "ret": ("%s", lambda v: v),
-    "inv": ("~%s", lambda v: ~v),          # C integer literal path for |v| < 2**31, object path above
+    "inv": ("~%s", lambda v: ~v),          # ConstantFolding._handle_TildeNode: str(~v) as a C literal / hex(~v) as an object
     "neg": ("-%s", lambda v: -v),          # ConstantFolding._handle_UnaryMinusNode rewrites the literal text
     "tup": ("(%s, None)", lambda v: (v, None)),
     "add": ("(%s + 1)", lambda v: v + 1),   # folded binary operation: literal rewritten as hex(...)
@@ -265,8 +265,8 @@ class WNode(object):
 
     def model(self):
         """(is_literal_node, is_c_long_typed, overflow_in_c_path) following ConstFold.tla's `folded`:
-        literals below 2**31 in magnitude are C longs, unary minus of a literal is a literal, `~` of a literal
-        is an operator node; a binary node is folded iff both operands are literal nodes; otherwise it is
+        literals below 2**31 in magnitude are C longs, unary minus and `~` of a literal are literals; a binary
+        node is folded iff both operands are literal nodes; otherwise it is
         evaluated at run time, in C integer arithmetic if both operands are C typed; the third component says
         that some run-time C operation has an exact result (or shift count) outside the 32-bit int range."""
         if self.op == "lit":
@@ -275,8 +275,9 @@ class WNode(object):
         if self.op in ("neg", "inv"):
             lit, c, ov = self.args[0].model()
             v = self.value()
-            if self.op == "neg" and lit:
-                # the negated literal is typed by its own value: -2147483648 is a C integer although 2147483648 is not
+            if lit:
+                # the new literal is typed by its own value: -2147483648 is a C integer although 2147483648 is not
+                # (`~` maps the C range onto itself, so there it is the type of the operand)
                 return True, -(1 << 31) <= v < (1 << 31), ov
             return False, c, ov or (c and not (CINT[0] <= v <= CINT[1]))
         (l1, c1, o1), (l2, c2, o2) = self.args[0].model(), self.args[1].model()
